@@ -241,7 +241,6 @@ def facts():
             frame_hooks={h: _mod(getattr(Model.Frame, h)) for h in
                          ('get_data', '_get_predicates_data', '_get_predicate_data_values',
                           '_get_sentencemap_data', '_get_predicate_data_part')},
-            classical_fixed=hasattr(Model, '_close_identity'),
             gen=gen_tables(logic),
         )
         res.append(ent)
@@ -344,5 +343,34 @@ def run():
     json.dump([run_case(registry, c) for c in cases], sys.stdout)
 
 
+def serial_base():
+    """BaseModel.finish (not cpl's) under SerialAccess: no registered logic has that combination (D is
+    classical), so it is observed on a subclass of each non-classical modal K-model with Access = SerialAccess."""
+    from pytableaux.lang import Atomic
+    from pytableaux.logics import registry
+    from pytableaux.models import SerialAccess
+    registry.import_all()
+    res = []
+    for name in ('KFDE', 'KK3', 'KLP'):
+        base = registry(name).Model
+        cls = type('Serial' + name, (base,), dict(Access=SerialAccess, __slots__=()))
+        for ops in ([['atomic', 0, 0, 'T']], [['atomic', 1, 0, 'T'], ['access', 0, 1]]):
+            m = cls()
+            ent = dict(base=name, ops=ops)
+            try:
+                with time_limit(4):
+                    for op in ops:
+                        apply_op(m, op)
+                    m.finish()
+                ent.update(R={str(w): sorted(ws) for w, ws in m.R.items()}, frames=sorted(m.frames),
+                           atoms={str(w): sorted(str(k) for k in fr.atomics) for w, fr in m.frames.items()})
+                d = m.get_data()
+                ent.update(worlds=list(d['Worlds']['values']), access=[list(p) for p in d['Access']['values']])
+            except Exception as e:
+                ent['err'] = type(e).__name__ + ': ' + str(e)[:120]
+            res.append(ent)
+    json.dump(res, sys.stdout)
+
+
 if __name__ == '__main__':
-    {'facts': facts, 'run': run}[sys.argv[1]]()
+    {'facts': facts, 'run': run, 'serial_base': serial_base}[sys.argv[1]]()
